@@ -96,6 +96,36 @@ pub fn programs() -> Vec<(&'static str, &'static str, Vec<Input>, bool)> {
             false,
         ),
         (
+            "pop-into-local-then-call",
+            "fn first(x: array<int>) -> int {\n  let pad = 0\n  x[0] + pad\n}\nlet a = [[1], [2]]\nlet x = a.pop()\nvh_emit_int(first(x))\n",
+            vec![],
+            false,
+        ),
+        (
+            "pop-into-parameter-slot",
+            "fn drain(src: array<array<int>>, cur: array<int>) -> int {\n  cur = src.pop()\n  cur[0]\n}\nlet a = [[1], [2]]\nvh_emit_int(drain(a, [0]))\n",
+            vec![],
+            false,
+        ),
+        (
+            "pop-in-caller-nested-calls",
+            "fn inner(x: array<int>) -> int {\n  x[0]\n}\nfn outer(a: array<array<int>>) -> int {\n  let x = a.pop()\n  inner(x) + inner(x)\n}\nlet a = [[1], [2]]\nvh_emit_int(outer(a))\n",
+            vec![],
+            false,
+        ),
+        (
+            "field-read-in-callee-then-overwrite",
+            "type Bx = {\n  v: array<int>\n}\nfn take(s: Bx) -> array<int> {\n  let x = s.v\n  s.v = [9]\n  x\n}\nlet s = Bx([1])\nlet y = take(s)\nvh_emit_int(y[0])\nvh_emit_int(s.v[0])\n",
+            vec![],
+            false,
+        ),
+        (
+            "lambda-call-holds-popped-value",
+            "let a = [[1], [2]]\nlet f = (x: array<int>) -> x[0]\nlet p = a.pop()\nvh_emit_int(f(p))\n",
+            vec![],
+            false,
+        ),
+        (
             "while-pop-all",
             "let a = [[1], [2], [3]]\nvar sum = 0\nwhile a.len() > 0 {\n  let x = a.pop()\n  sum = sum + x[0]\n}\nvh_emit_int(sum)\n",
             vec![],
